@@ -26,7 +26,7 @@ CASE_TIMEOUT = 12      # seconds; a normal case takes well under one second
 MEM_LIMIT_GB = 6
 ASSUMPTIONS = ['a usage error is SystemExit (2) raised by argparse', 'report completeness: known block structure, no unparsed lines, no nan/inf text']
 
-HOSTILE = ['0', '-1', '1', '1e300', '-1e300', '1e-300', '1e155', '1e-155', '3e153', 'nan', 'inf', '-inf', '', 'abc', '1e9', '-0.0', '0.5', '2', '1e-9', '99999999999', '-7']
+HOSTILE = ['1' + '0' * 400, '0', '-1', '1', '1e300', '-1e300', '1e-300', '1e155', '1e-155', '3e153', 'nan', 'inf', '-inf', '', 'abc', '1e9', '-0.0', '0.5', '2', '1e-9', '99999999999', '-7']
 TAGS    = ['0', '-1', '99', '1', '2', '3', 'x', '']
 
 # ---- enumerated stratum: every field of every option form x every hostile value, one at a time,
